@@ -28,22 +28,69 @@ def check(pid, tier, seed):
 
 
 SPEC = {
-    "level_text": "TODO",
-    "level_note": "TODO",
+    "fingerprint_funcs": [
+        "trie/sync.go:NewSync", "trie/sync.go:Sync.AddSubTrie", "trie/sync.go:Sync.AddRawEntry",
+        "trie/sync.go:Sync.Missing", "trie/sync.go:Sync.Process", "trie/sync.go:Sync.Commit",
+        "trie/sync.go:Sync.Pending", "trie/sync.go:Sync.schedule", "trie/sync.go:Sync.children",
+        "trie/sync.go:Sync.commit", "core/state/sync.go:NewStateSync",
+        "you/downloader/triesync.go:trieSync.processNodeData",
+    ],
+    "level_text": "Coq theorems over all histories of any length (responses in any order and batching, duplicates, "
+                  "unrequested and undecodable blobs, writers failing after k puts, restarts on the database as it is), "
+                  "all hash functions and all node decoders: outside the listed finding class the destination database is "
+                  "hash-consistent and ordered-closed at every point (every entry's children, storage root, code and "
+                  "delegations blob are older entries) - also after any prefix of a commit's writes; whatever is present "
+                  "has its whole closure present; Pending()=0 implies the closure of the root is present; a complete "
+                  "hash-consistent database agrees with a complete hash-consistent source on the whole closure; a blob "
+                  "that hashes to nothing pending, or does not decode, changes nothing in any scheduler state. The "
+                  "unrestricted statement is refuted in the model by the finding's witness. The model is a hand-written "
+                  "mirror of trie.Sync, the state-sync callback and processNodeData, compared inside Coq with the real "
+                  "code on scripted responder histories (return values, Pending, full request/membatch/database dumps).",
+    "level_note": "Trusted: Coq kernel + vm_compute; fidelity of the hand model rests on the differential check "
+                  "(generator reach in evidence); Keccak and decodeNode are parameters of every theorem (the harness "
+                  "supplies their finite tables per case); no axioms. Open finding: a raw entry (contract code) equal to "
+                  "a trie node satisfies the node request without its children (fixes/C19_raw_entry_satisfies_node_request.md).",
     "check": check,
     "harness": "c19",
     "hooks": ["trie/zz_verif_c19.go", "you/downloader/zz_verif_c19.go"],
     "translators": [],
-    "coq_targets": ["C19/Model.vo", "C19/Properties.vo"],
+    "coq_targets": ["C19/Model.vo", "C19/Proofs.vo", "C19/ProofsInv.vo", "C19/ProofsMain.vo", "C19/Properties.vo"],
     "properties_v": "C19/Properties.v",
-    "obligations": ["C19_nonvacuous_stub"],
+    "obligations": [
+        "C19_closed_holds_outside", "C19_never_partial_holds_outside", "C19_complete_holds_outside",
+        "C19_identical_content", "C19_database_hash_consistent", "C19_wrong_data", "C19_complete_refuted",
+        "C19_nonvacuous_world", "C19_nonvacuous_interrupted", "C19_nonvacuous_wrong_data", "C19_nonvacuous_witness",
+    ],
     "cases": {"quick": 240, "thorough": 6000},
     "shard": 120,
     "gen_args": [],
     "allowed_axioms": [],
     "finding_key": lambda h: h.get("what"),
-    "trusted_base": [],
-    "assumptions": [],
-    "modelled": [],
+    "trusted_base": [
+        "Coq 8.16.1 kernel (vm_compute for the non-vacuity examples, the witness and the in-Coq model runs; no native_compute)",
+        "no axioms: every obligation is Closed under the global context",
+        "hand-written model coq/C19/Model.v of trie.Sync (NewSync, AddSubTrie, AddRawEntry, Missing, Process, Commit, Pending, "
+        "schedule, children, commit), state.NewStateSync's callback and trieSync.processNodeData",
+        "correspondence harness harness/cmd/c19 (Go): interning of hashes/blobs, the per-case tables of Keccak-256 and of "
+        "decodeNode (hook trie.VerifC19Decode + rlp decoding of state.Account), the scripted responder, the failing writer",
+        "hooks hooks/trie/zz_verif_c19.go (read-only projections of decodeNode and of the scheduler state) and "
+        "hooks/you/downloader/zz_verif_c19.go (runs processNodeData on a bare trieSync)",
+    ],
+    "assumptions": [
+        "outside the finding class: raw_node_separate (a blob whose hash an account uses as code/delegations hash does not "
+        "decode to a node that needs anything) and storage_account_separate (no storage-trie node carries a value that decodes "
+        "as an account); C19_complete_refuted shows the statement fails without them",
+        "no blob hashes to the all-zero hash (common.Hash{} means 'no parent' in AddSubTrie/AddRawEntry)",
+        "completeness and identical-content theorems assume the hash function is injective (closedness and hash-consistency do not)",
+        "the hash handed to Sync.Process is the hash of the blob (done by trieSync.processNodeData; Sync itself does not check it)",
+        "the database the sync reads is the one Commit writes to, nothing else deletes from it; the initial database is ordered-closed "
+        "(empty, or left by an earlier sync)",
+        "a decoded node has at most one value child and it comes after all hash children (checked by the harness for every blob it decodes)",
+        "Missing's choice among equal priorities is taken from the observation and only checked to be a legal pop order",
+        "goroutines, timers, peers and the retry bookkeeping of the downloader loop are outside the model",
+    ],
+    "modelled": ["trie.NewSync", "trie.Sync.AddSubTrie", "trie.Sync.AddRawEntry", "trie.Sync.Missing", "trie.Sync.Process",
+                 "trie.Sync.Commit", "trie.Sync.Pending", "trie.Sync.schedule", "trie.Sync.children", "trie.Sync.commit",
+                 "state.NewStateSync (leaf callback)", "downloader.trieSync.processNodeData"],
     "partial": [],
 }
